@@ -3,6 +3,7 @@ import Robust.Irc.Proofs.H3c
 SVSJOIN (calls `cmdTopic` / `cmdNames` on behalf of the joined session).
 -/
 namespace Robust.Irc
+open Srv
 open Robust AMap
 
 /-- the channel value the member is added to: the stored one or a fresh empty one -/
@@ -18,6 +19,7 @@ theorem getD_chan_cases (c : Ctx) (lc chn : String) (hlc : chanToLower chn = lc)
 /-! #### what SVSJOIN needs from `cmdTopic` (query form) and `cmdNames`: they only append output and
 cannot panic for a stored session -/
 
+namespace Srv
 theorem cmdNames_emits {c c' : Ctx} {tid : Id} {m : IrcMsg} (hr : cmdNames c tid m = Res.ok c') : Emits c c' := by
   unfold cmdNames at hr
   obtain ⟨s, _, hr⟩ := Res.bind_eq_ok.1 hr
@@ -30,6 +32,8 @@ theorem cmdNames_emits {c c' : Ctx} {tid : Id} {m : IrcMsg} (hr : cmdNames c tid
     · obtain ⟨entries, _, hr⟩ := Res.bind_eq_ok.1 hr
       cases hr
       exact (Emits.sendUser _ _ _).trans (Emits.sendUser _ _ _)
+end Srv
+open Srv
 
 theorem cmdTopic_query_emits {c c' : Ctx} {tid : Id} {chn : String}
     (hr : cmdTopic c tid ⟨none, "TOPIC", [chn]⟩ = Res.ok c') : Emits c c' := by
@@ -49,6 +53,7 @@ theorem cmdTopic_query_emits {c c' : Ctx} {tid : Id} {chn : String}
       · cases hr; exact Emits.sendUser _ _ _
       · cases hr; exact (Emits.sendUser _ _ _).trans (Emits.sendUser _ _ _)
 
+namespace Srv
 theorem cmdNames_noPanic {c : Ctx} {tid : Id} {m : IrcMsg} {t : Session} (hw : WInvCore c.st)
     (ht : AMap.get c.st.sessions tid = some t) : NoPanic (cmdNames c tid m) := by
   unfold cmdNames
@@ -63,6 +68,8 @@ theorem cmdNames_noPanic {c : Ctx} {tid : Id} {m : IrcMsg} {t : Session} (hw : W
       obtain ⟨mid, ms, h1, h2, _⟩ := hw.member_session hch he
       rw [h1]; dsimp only; rw [h2]; dsimp only
       split <;> exact ⟨_, rfl⟩
+end Srv
+open Srv
 
 theorem cmdTopic_query_noPanic {c : Ctx} {tid : Id} {chn : String} {t : Session}
     (ht : AMap.get c.st.sessions tid = some t) : NoPanic (cmdTopic c tid ⟨none, "TOPIC", [chn]⟩) := by
@@ -97,7 +104,8 @@ theorem cmdServerSvsjoin_mid
     split at hr
     · obtain ⟨pn, _, hr⟩ := Res.bind_eq_ok.1 hr
       cases hr; exact h.sendSvc _
-    · simp only [getChan_eq, putChan_putChan] at hr
+    · rename_i hvc
+      simp only [getChan_eq, putChan_putChan] at hr
       split at hr
       · rename_i hcont
         cases hr
@@ -110,7 +118,7 @@ theorem cmdServerSvsjoin_mid
         obtain ⟨t, _, hr⟩ := Res.bind_eq_ok.1 hr
         obtain ⟨rc, _, hr⟩ := Res.bind_eq_ok.1 hr
         obtain ⟨c2, h2, hr⟩ := Res.bind_eq_ok.1 hr
-        have hm1 := h.addMember hidx (getD_chan_cases c _ chn rfl) h1
+        have hm1 := h.addMember hidx (getD_chan_cases c _ chn rfl) (getD_chan_valid hvc) h1
         exact (((hm1.emit _ _).sendSvc _).emits (hTopic _ _ _ _ h2)).emits (hNames _ _ _ _ hr)
 
 
@@ -139,11 +147,12 @@ theorem cmdServerSvsjoin_safe_of
   · rename_i tid hidx
     split
     · exact NoPanic.pure _
-    · split
+    · rename_i hvc
+      split
       · exact NoPanic.pure _
       · obtain ⟨t, ht⟩ := h.hinv.toWInvCore.indexed_stored hidx
         refine NoPanic.bind (NoPanic.of_ok ⟨_, modS_of_get (c := putChan _ _ _) _ ht⟩) (fun c1 h1 => ?_)
-        have hm1 := h.addMember hidx (getD_chan_cases c _ p1 rfl) h1
+        have hm1 := h.addMember hidx (getD_chan_cases c _ p1 rfl) (getD_chan_valid hvc) h1
         obtain ⟨hl, hn, _⟩ := addMember_lookups h1
         obtain ⟨t1, ht1⟩ := hm1.hinv.toWInvCore.indexed_stored (x := nickToLower p0) (id := tid) (by rw [hn]; exact hidx)
         obtain ⟨rc, hrc⟩ := rcChannel_ok hm1.hinv.toWInvCore hl
